@@ -436,6 +436,10 @@ func (c *channel) reconnect(maxRetries float64) {
 			c.streamMut.Unlock()
 			return
 		}
+		// release the context of the broken stream that is being replaced
+		if c.cancelStream != nil {
+			c.cancelStream()
+		}
 		c.streamCtx, c.cancelStream = context.WithCancel(c.parentCtx)
 		// keep the old (broken) stream if a new one cannot be created; sender and
 		// receiver may still call it, which must yield an error, not a nil dereference.
